@@ -1,0 +1,88 @@
+// SPDX-FileCopyrightText: 2022-present Intel Corporation
+//
+// SPDX-License-Identifier: Apache-2.0
+
+//go:build verif
+
+// Contracts for the deductive verifier in /verif (govc). Comment-only: this file contains no code
+// and is excluded from every build that does not set the "verif" tag.
+
+package transaction
+
+//@ import configapi "github.com/onosproject/onos-api/go/onos/config/v2"
+//@ import errors "github.com/onosproject/onos-lib-go/pkg/errors"
+
+//@ spec txnReady(t *configapi.Transaction) bool = t != nil && txnSnapshotted(t) && txnWellFormed(t) && txnInv(t)
+//@ spec nothingSeen() bool = forall k string :: !seenValidated[k] && !seenInitialized[k] && !seenCommitted[k] && !seenApplied[k] && !seenAborted[k]
+//@ spec noConfigOrDeviceEffect() bool = cfgValueWrites == old(cfgValueWrites) && cfgStatusWrites == old(cfgStatusWrites) && cfgCreates == old(cfgCreates) && deviceSetCalls == old(deviceSetCalls)
+//@ spec allSeen(t *configapi.Transaction, seen map[string]bool) bool = forall j int :: 0 <= j && j < len(t.Status.Proposals) ==> seen[t.Status.Proposals[j]]
+//@ spec seenUpTo(t *configapi.Transaction, seen map[string]bool, n int) bool = forall j int :: 0 <= j && j <= n ==> seen[t.Status.Proposals[j]]
+
+//@ spec noneFound() bool = forall k int :: !txnFound[k] && !txnIsChange[k] && !txnInitDone[k] && !txnLooked[k]
+//@ spec isRollbackTxn(t *configapi.Transaction) bool = isType(t.Details, "*configapi.Transaction_Rollback")
+//@ spec rollbackIndexOf(t *configapi.Transaction) int = asType(t.Details, "*configapi.Transaction_Rollback").Rollback.RollbackIndex
+//@ spec quietSoFar() bool = txnStatusWrites == old(txnStatusWrites) && proposalStatusWrites == old(proposalStatusWrites) && propNewCommit == old(propNewCommit) && propNewApply == old(propNewApply) && propNewAbort == old(propNewAbort) && propNewValidate == old(propNewValidate) && noConfigOrDeviceEffect()
+
+//@ func (*Reconciler).reconcileInitialize
+//@   props C01, C02, C06, C07
+//@   requires r != nil && txnReady(transaction) && transaction.Status.Phases.Initialize != nil && transaction.Status.Phases.Validate == nil && transaction.Status.Phases.Commit == nil && transaction.Status.Phases.Apply == nil && transaction.Status.Phases.Abort == nil && nothingSeen() && noneFound()
+//@   ensures {C06} rollback-target-checked: isRollbackTxn(transaction) && (proposalCreates > old(proposalCreates) || (old(arrOf(transaction.Status.Proposals)) == 0 && arrOf(transaction.Status.Proposals) != 0)) ==> txnIsChange[rollbackIndexOf(transaction)]
+//@   ensures {C06} refused-rollback-fails: transaction.Status.State == configapi.TransactionStatus_FAILED && old(transaction.Status.State) != configapi.TransactionStatus_FAILED ==> isRollbackTxn(transaction) && !txnIsChange[rollbackIndexOf(transaction)] && transaction.Status.Failure != nil && (transaction.Status.Failure.Type == configapi.Failure_NOT_FOUND || transaction.Status.Failure.Type == configapi.Failure_FORBIDDEN) && transaction.Status.Phases.Abort != nil && tInitState(transaction) == configapi.TransactionInitializePhase_FAILED && proposalCreates == old(proposalCreates)
+//@   ensures {C06} missing-rollback-target-refused: old(tInitState(transaction)) == configapi.TransactionInitializePhase_INITIALIZING && old(arrOf(transaction.Status.Proposals)) == 0 && isRollbackTxn(transaction) && err == nil && (!txnFound[transaction.Index - 1] || txnInitDone[transaction.Index - 1]) && !txnIsChange[rollbackIndexOf(transaction)] ==> transaction.Status.State == configapi.TransactionStatus_FAILED
+//@   ensures {C02} init-in-index-order: proposalCreates > old(proposalCreates) || (old(arrOf(transaction.Status.Proposals)) == 0 && arrOf(transaction.Status.Proposals) != 0) ==> old(tInitState(transaction)) == configapi.TransactionInitializePhase_INITIALIZING && (!txnFound[transaction.Index - 1] || txnInitDone[transaction.Index - 1])
+//@   ensures {C07} create-idempotent: proposalCreates > old(proposalCreates) && lastCreateExisted ==> err == nil && transaction.Status.State == old(transaction.Status.State)
+//@   ensures {C01,C02} initialized-needs-all: tInitState(transaction) == configapi.TransactionInitializePhase_INITIALIZED && old(tInitState(transaction)) == configapi.TransactionInitializePhase_INITIALIZING ==> allSeen(transaction, seenInitialized)
+//@   ensures {C01,C02} validate-phase-only-after-init: transaction.Status.Phases.Validate != nil ==> old(tInitState(transaction)) == configapi.TransactionInitializePhase_INITIALIZED
+//@   ensures {C01} init-starts-no-phase: propNewValidate == old(propNewValidate) && propNewCommit == old(propNewCommit) && propNewApply == old(propNewApply) && propNewAbort == old(propNewAbort) && proposalStatusWrites == old(proposalStatusWrites)
+//@   ensures {C01} txn-touches-no-config: noConfigOrDeviceEffect()
+//@   loop 1 invariant quietSoFar() && (proposalCreates > old(proposalCreates) ==> !lastCreateExisted) && proposalCreates >= old(proposalCreates)
+//@   loop 2 invariant quietSoFar() && (proposalCreates > old(proposalCreates) ==> !lastCreateExisted) && proposalCreates >= old(proposalCreates)
+//@   loop 3 invariant quietSoFar() && (proposalCreates > old(proposalCreates) ==> !lastCreateExisted) && proposalCreates >= old(proposalCreates)
+//@   loop 4 invariant 0 - 1 <= rangeindex && (allInitialized ==> seenUpTo(transaction, seenInitialized, rangeindex)) && quietSoFar() && proposalCreates == old(proposalCreates)
+//@   loop 5 invariant quietSoFar() && proposalCreates == old(proposalCreates)
+
+//@ func (*Reconciler).reconcileValidate
+//@   props C01, C02, C05, C07
+//@   requires r != nil && txnReady(transaction) && transaction.Status.Phases.Validate != nil && transaction.Status.Phases.Commit == nil && transaction.Status.Phases.Apply == nil && transaction.Status.Phases.Abort == nil && nothingSeen()
+//@   ensures {C01,C05} validated-needs-all: transaction.Status.State == configapi.TransactionStatus_VALIDATED && old(transaction.Status.State) != configapi.TransactionStatus_VALIDATED ==> allSeen(transaction, seenValidated) && old(tValidateState(transaction)) == configapi.TransactionValidatePhase_VALIDATING
+//@   ensures {C01,C05} failed-proposal-aborts: transaction.Status.State == configapi.TransactionStatus_FAILED && old(transaction.Status.State) != configapi.TransactionStatus_FAILED ==> transaction.Status.Phases.Abort != nil && transaction.Status.Phases.Commit == nil && transaction.Status.Failure != nil && tValidateState(transaction) == configapi.TransactionValidatePhase_FAILED
+//@   ensures {C01,C02} validate-starts-only-validation: propNewCommit == old(propNewCommit) && propNewApply == old(propNewApply) && propNewAbort == old(propNewAbort) && (propNewValidate > old(propNewValidate) ==> old(tValidateState(transaction)) == configapi.TransactionValidatePhase_VALIDATING)
+//@   ensures {C01,C02} commit-phase-only-when-validated: transaction.Status.Phases.Commit != nil && old(transaction.Status.Phases.Commit) == nil ==> old(tValidateState(transaction)) == configapi.TransactionValidatePhase_VALIDATED
+//@   ensures {C01} txn-touches-no-config: noConfigOrDeviceEffect()
+//@   loop 1 invariant 0 - 1 <= rangeindex && (allValidated ==> seenUpTo(transaction, seenValidated, rangeindex)) && txnStatusWrites == old(txnStatusWrites) && proposalStatusWrites == old(proposalStatusWrites) && propNewCommit == old(propNewCommit) && propNewApply == old(propNewApply) && propNewAbort == old(propNewAbort) && propNewValidate == old(propNewValidate) && noConfigOrDeviceEffect()
+//@   loop 2 invariant txnStatusWrites == old(txnStatusWrites) && proposalStatusWrites == old(proposalStatusWrites) && propNewCommit == old(propNewCommit) && propNewApply == old(propNewApply) && propNewAbort == old(propNewAbort) && propNewValidate == old(propNewValidate) && noConfigOrDeviceEffect()
+
+//@ func (*Reconciler).reconcileCommit
+//@   props C01, C02, C07
+//@   requires r != nil && txnReady(transaction) && transaction.Status.Phases.Commit != nil && transaction.Status.Phases.Apply == nil && transaction.Status.Phases.Abort == nil && nothingSeen()
+//@   ensures {C01,C02} committed-needs-all: transaction.Status.State == configapi.TransactionStatus_COMMITTED && old(transaction.Status.State) != configapi.TransactionStatus_COMMITTED ==> allSeen(transaction, seenCommitted) && old(tCommitState(transaction)) == configapi.TransactionCommitPhase_COMMITTING
+//@   ensures {C01,C02} commit-starts-only-commits: propNewValidate == old(propNewValidate) && propNewApply == old(propNewApply) && propNewAbort == old(propNewAbort) && (propNewCommit > old(propNewCommit) ==> old(tCommitState(transaction)) == configapi.TransactionCommitPhase_COMMITTING)
+//@   ensures {C02} apply-phase-only-when-committed: transaction.Status.Phases.Apply != nil && old(transaction.Status.Phases.Apply) == nil ==> old(tCommitState(transaction)) == configapi.TransactionCommitPhase_COMMITTED
+//@   ensures {C01} commit-never-fails-txn: transaction.Status.State == old(transaction.Status.State) || transaction.Status.State == configapi.TransactionStatus_COMMITTED
+//@   ensures {C01} txn-touches-no-config: noConfigOrDeviceEffect()
+//@   loop 1 invariant 0 - 1 <= rangeindex && (allCommitted ==> seenUpTo(transaction, seenCommitted, rangeindex)) && txnStatusWrites == old(txnStatusWrites) && proposalStatusWrites == old(proposalStatusWrites) && propNewCommit == old(propNewCommit) && propNewApply == old(propNewApply) && propNewAbort == old(propNewAbort) && propNewValidate == old(propNewValidate) && noConfigOrDeviceEffect()
+//@   loop 2 invariant txnStatusWrites == old(txnStatusWrites) && proposalStatusWrites == old(proposalStatusWrites) && propNewCommit == old(propNewCommit) && propNewApply == old(propNewApply) && propNewAbort == old(propNewAbort) && propNewValidate == old(propNewValidate) && noConfigOrDeviceEffect()
+
+//@ func (*Reconciler).reconcileApply
+//@   props C02, C07, C08, C11
+//@   requires r != nil && txnReady(transaction) && transaction.Status.Phases.Apply != nil && nothingSeen()
+//@   ensures {C02,C08} applied-needs-all: transaction.Status.State == configapi.TransactionStatus_APPLIED && old(transaction.Status.State) != configapi.TransactionStatus_APPLIED ==> allSeen(transaction, seenApplied) && old(tApplyState(transaction)) == configapi.TransactionApplyPhase_APPLYING
+//@   ensures {C08,C11} failed-proposal-fails-txn: transaction.Status.State == configapi.TransactionStatus_FAILED && old(transaction.Status.State) != configapi.TransactionStatus_FAILED ==> transaction.Status.Failure != nil && tApplyState(transaction) == configapi.TransactionApplyPhase_FAILED && transaction.Status.Phases.Apply.Failure == transaction.Status.Failure
+//@   ensures {C02,C11} apply-starts-only-applies: propNewValidate == old(propNewValidate) && propNewCommit == old(propNewCommit) && propNewAbort == old(propNewAbort) && (propNewApply > old(propNewApply) ==> old(tApplyState(transaction)) == configapi.TransactionApplyPhase_APPLYING)
+//@   ensures {C02} txn-touches-no-config: noConfigOrDeviceEffect()
+//@   loop 1 invariant 0 - 1 <= rangeindex && (allApplied ==> seenUpTo(transaction, seenApplied, rangeindex)) && txnStatusWrites == old(txnStatusWrites) && proposalStatusWrites == old(proposalStatusWrites) && propNewCommit == old(propNewCommit) && propNewApply == old(propNewApply) && propNewAbort == old(propNewAbort) && propNewValidate == old(propNewValidate) && noConfigOrDeviceEffect()
+
+//@ func (*Reconciler).reconcileAbort
+//@   props C01, C07
+//@   requires r != nil && txnReady(transaction) && transaction.Status.Phases.Abort != nil && transaction.Status.Phases.Apply == nil && nothingSeen()
+//@   ensures {C01} aborted-needs-all: tAbortState(transaction) == configapi.TransactionAbortPhase_ABORTED && old(tAbortState(transaction)) == configapi.TransactionAbortPhase_ABORTING ==> allSeen(transaction, seenAborted)
+//@   ensures {C01} abort-starts-only-aborts: propNewValidate == old(propNewValidate) && propNewCommit == old(propNewCommit) && propNewApply == old(propNewApply) && (propNewAbort > old(propNewAbort) ==> old(tAbortState(transaction)) == configapi.TransactionAbortPhase_ABORTING)
+//@   ensures {C01} abort-keeps-state: transaction.Status.State == old(transaction.Status.State)
+//@   ensures {C01} txn-touches-no-config: noConfigOrDeviceEffect()
+//@   loop 1 invariant 0 - 1 <= rangeindex && (allAborted ==> seenUpTo(transaction, seenAborted, rangeindex)) && txnStatusWrites == old(txnStatusWrites) && proposalStatusWrites == old(proposalStatusWrites) && propNewCommit == old(propNewCommit) && propNewApply == old(propNewApply) && propNewAbort == old(propNewAbort) && propNewValidate == old(propNewValidate) && noConfigOrDeviceEffect()
+
+//@ func (*Reconciler).reconcileTransaction
+//@   props C01, C02, C07
+//@   requires r != nil && txnReady(transaction) && nothingSeen() && noneFound()
+//@   ensures {C01} txn-touches-no-config: noConfigOrDeviceEffect()
+//@   ensures {C01,C02} dispatch-starts-one-kind: (old(transaction.Status.Phases.Apply) == nil ==> propNewApply == old(propNewApply)) && (old(transaction.Status.Phases.Commit) == nil ==> propNewCommit == old(propNewCommit)) && (old(transaction.Status.Phases.Abort) == nil ==> propNewAbort == old(propNewAbort)) && (old(transaction.Status.Phases.Commit) != nil ==> propNewAbort == old(propNewAbort)) && (old(transaction.Status.Phases.Abort) != nil ==> propNewCommit == old(propNewCommit) && propNewApply == old(propNewApply))
